@@ -156,6 +156,23 @@ PUMP_HEADERS = [b'Subject', b'From', b'To', b'Content-Type',
                 b'In-Reply-To', b'References']
 
 
+def deep_mime(depth: int, kind: str = 'multipart') -> bytes:
+    """A message of ``depth`` really nested MIME levels (a boundary of its own
+    per level): multipart in multipart, message/rfc822 in message/rfc822, or
+    alternating."""
+    body = b'Subject: leaf\r\n\r\nleaf text\r\n'
+    for k in range(depth):
+        rfc = kind == 'rfc822' or (kind == 'mixed' and k % 2)
+        if rfc:
+            body = b'Content-Type: message/rfc822\r\n\r\n' + body
+        else:
+            b = b'vf%d' % k
+            body = b'Content-Type: multipart/mixed; boundary="' + b + \
+                b'"\r\n\r\n--' + b + b'\r\n' + body + b'\r\n--' + b + \
+                b'--\r\n'
+    return b'X-VF-ID: deep\r\n' + body
+
+
 def pump(rng: random.Random) -> bytes:
     """A 'pumped' string: a short unit repeated many times after a prefix
     that looks like the start of something the server's regexes recognise,
@@ -257,7 +274,10 @@ def hostile_message(rng: random.Random, cid: bytes = b'x',
     if r < 0.15:
         # nested multipart with boundary games
         b = rng.choice([b'b', b'=_x', b'--', b'b b', b'"'])
-        depth = rng.randint(1, 6)
+        # mostly shallow; sometimes around and beyond what recursive code
+        # survives (every MIME level costs several frames)
+        depth = rng.randint(1, 6) if rng.random() < 0.7 else rng.choice(
+            [30, 33, 60, 150, 280, 400, 1200])
         body = b'leaf' + nl
         for _ in range(depth):
             body = (b'--' + b + nl + b'Content-Type: ' + rng.choice([
@@ -351,7 +371,14 @@ HOSTILE_LEAVES = [
     b'"01-Jan-2024 10:00:00 +0000"', b'"99-Jan-2024 10:00:00 +0000"',
     b'" 1-Jan-0001 00:00:00 +0000"', b'"01-Jan-2024 25:61:61 +9999"',
     b'"1-Jan-999 00:00:00 +0000"', b'"31-Dec-9999 23:59:59 +1400"',
-    b'"01-Jan-2024"', b'PLAIN', b'LOGIN', b'BOGUS', b'PLAIN =',
+    b'"01-Jan-2024"', b'"01-Jan-2024 10:00:00 +010203"',
+    b'"01-Jan-2024 10:00:00 +01:00"', b'"01-Jan-2024 10:00:00 Z"',
+    b'"01-Jan-2024 10:00:00 -0000"', b'"01-Jan-2024 10:00:00 +2359"',
+    b'BODY[HEADER.FIELDS ({3+}\r\nX\rA)]',
+    b'BODY[HEADER.FIELDS ({3+}\r\nX\xe9A)]',
+    b'BODY[HEADER.FIELDS ({3+}\r\nX\x00A "q\\"x")]',
+    b'BODY.PEEK[HEADER.FIELDS.NOT ({2+}\r\n\r\n)]',
+    b'PLAIN', b'LOGIN', b'BOGUS', b'PLAIN =',
     b'PLAIN AGEAYg==', b'PLAIN !!!', b'(MESSAGES', b'(BOGUS)', b'()',
     b'(MESSAGES MESSAGES)', b'UTF8', b'RETURN (ALL)', b'RETURN ()',
 ]
@@ -383,7 +410,9 @@ def sanitize_literals(line: bytes) -> bytes:
                           m.group(3), line)
 
 
-APPEND_DATES = [b'01-Jan-0001 00:00:00 +0000', b'01-Jan-0001 00:00:00 +1400',
+APPEND_DATES = [b'01-Jan-2024 10:00:00 +010203', b'01-Jan-2024 10:00:00 +01:00',
+                b'01-Jan-2024 10:00:00 Z', b'01-Jan-2024 10:00:00 -0330',
+                b'01-Jan-0001 00:00:00 +0000', b'01-Jan-0001 00:00:00 +1400',
                 b'31-Dec-9999 23:59:59 -1200', b' 1-Jan-1970 00:00:00 +0000',
                 b'01-Jan-1600 00:00:00 +0000', b'29-Feb-2023 00:00:00 +0000',
                 b'31-Dec-9999 23:59:59 +0000', b'01-Jan-2024 10:00:00 +0000']
